@@ -81,13 +81,15 @@ SeqSet(s) == {s[i] : i \in 1..Len(s)}
 (*            | "lowbits" (only the unused low bits of the last base64     *)
 (*            symbol differ) | "casefold" | "padded": all not the value    *)
 (*   protocol "none" | "requested" | "foreign"                             *)
-(*   exts     "none" | "offered" | "offeredparams" | "foreign" | "mixed"   *)
+(*   exts     "none" | "offered" | "offeredparams" | "offered2" (two       *)
+(*            offered ones in one line) | "foreign" | "mixed" | "mixedrev" *)
+(*            | "mixedmid" (a foreign one after / before / between offered)*)
 (***************************************************************************)
 ClientVerdict(resp) ==
     IF /\ resp.proto \in {"1.1", "1.2"} /\ resp.status = "101"
        /\ resp.upgrade \in Good /\ resp.connection \in Good /\ resp.accept \in Good
        /\ resp.protocol \in {"none", "requested"}
-       /\ resp.exts \in {"none", "offered", "offeredparams"}
+       /\ resp.exts \in {"none", "offered", "offeredparams", "offered2"}
        /\ ~resp.cut
     THEN "ok" ELSE "fail"
 =============================================================================
